@@ -216,3 +216,10 @@ impl StorageRecords {
         record.index != 0 && self.records[record.index as usize].index == record.index
     }
 }
+
+// Verification hook (inactive unless built with `--cfg agdb_verif` under Kani).
+#[cfg(all(agdb_verif, kani))]
+#[allow(unused, dead_code, clippy::all)]
+pub(crate) mod verif_h {
+    include!(concat!(env!("AGDB_VERIF_HARNESS"), "/storage_records_h.rs"));
+}
